@@ -7,6 +7,8 @@ import (
 	"bytes"
 	"compress/zlib"
 	"fmt"
+	"image"
+	"image/jpeg"
 	"strings"
 
 	"seehuhn.de/go/pdf"
@@ -28,6 +30,11 @@ type Info struct {
 	// is deflated once but declared /Filter [/FlateDecode /FlateDecode]):
 	// DecodeStream fails after it has built the first stage.
 	BadStream pdf.Reference
+	// FlateDCT is a JPEG stored behind FlateDecode: /Filter [/FlateDecode
+	// /DCTDecode].  The JPEG decoder's helper goroutine reads through the
+	// zlib stage; closing the decoded stream early must stop the helper
+	// before the zlib reader goes back to the package-level pool.
+	FlateDCT pdf.Reference
 }
 
 func Build(t *tape.Tape) (*Info, error) {
@@ -111,6 +118,22 @@ func Build(t *tape.Tape) (*Info, error) {
 		zw.Close()
 		d.BadStream = w.Alloc()
 		if err := w.Put(d.BadStream, pdf.NewStream(pdf.Dict{"Filter": pdf.Array{pdf.Name("FlateDecode"), pdf.Name("FlateDecode")}}, zb.Bytes())); err != nil {
+			return nil, err
+		}
+	}
+	if version >= pdf.V1_2 {
+		img := image.NewGray(image.Rect(0, 0, 240, 240))
+		st := t.Sub("flatedct.pix")
+		for i := range img.Pix {
+			img.Pix[i] = byte(st.Intn(256))
+		}
+		var jb, zb bytes.Buffer
+		jpeg.Encode(&jb, img, &jpeg.Options{Quality: 90})
+		zw := zlib.NewWriter(&zb)
+		zw.Write(jb.Bytes())
+		zw.Close()
+		d.FlateDCT = w.Alloc()
+		if err := w.Put(d.FlateDCT, pdf.NewStream(pdf.Dict{"Filter": pdf.Array{pdf.Name("FlateDecode"), pdf.Name("DCTDecode")}}, zb.Bytes())); err != nil {
 			return nil, err
 		}
 	}
